@@ -58,6 +58,10 @@ def forIn {σ} (vals : List Int) (init : σ) (body : Int → σ → σ) : σ :=
     by the level) is recorded as `(i, v)`, in program order. -/
 def wr {ι α} (log : List (ι × α)) (i : ι) (v : α) : List (ι × α) := log ++ [(i, v)]
 
+/-- `arr[idx] = numpy.logical_not(arr[idx])` for an integer index array `idx`. -/
+def flipAt (l : List Bool) (idx : List Int) : List Bool :=
+  idx.foldl (fun acc i => set acc i (!(get acc i))) l
+
 /-- The code's `u <= ar` with `u` given by its logarithm. -/
 def uLe (logu : Rat) : AR → Bool
   | .zero => false
